@@ -12,7 +12,8 @@ CFG = {'level': 'exploration',
                'overlapping the file by 0..100 %. Exactly the requested set must result, every block must be in its documented order, kept lines '
                'must keep their tagged comments, and SetRequireSeparateIndirect on a qualifying file must leave at most two require statements, '
                'none holding both direct and indirect requirements. The minimal witness of the repaired SetUse defect (6.7) runs as a fixed '
-               'regression case. Held-on-observed only.',
+               'regression case. Held-on-observed only.'
+               " Added after seeded changes: end-of-line comments that merely start with the word 'indirect'; the indirect marker is read with the documented rule independently of the parser under test, and the rest of a kept line's comment must equal its original text.",
  'level_note': 'Trusts ref/refsemver for version order and the strict parser as reader of the result. "Qualifying" is read strictly: exactly one '
                'require statement, no comment on it or on its lines other than "// indirect" (an additional empty require block is counted as '
                'unspecified and skipped). Order of exclude blocks for pre-releases of go 1.21 is treated as unspecified (not generated).',
